@@ -80,9 +80,9 @@ def check_dd(ck, dag):
         if kind.startswith("cos"):
             import pyqmc.pbc.pbc as pbc
             xw, _ = pbc.enforce_pbc(LAT, xn_raw)
-            if not np.allclose(xn, xw, atol=1e-12):
+            if not np.allclose(xn, xw, atol=1e-12, rtol=0):
                 ck.violation("proposed_position", S_DD, inp, expected=xw.tolist(), got=xn.tolist())
-        elif not np.allclose(xn, xn_raw, atol=1e-13):
+        elif not np.allclose(xn, xn_raw, atol=1e-13, rtol=0):
             ck.violation("proposed_position", S_DD, inp, expected=xn_raw.tolist(), got=xn.tolist(), oracle="x + gauss + umrigar(Re grad, tstep)")
         if not np.allclose(r2, np.sum((g + d0) ** 2, axis=1), rtol=1e-12):
             ck.violation("r2_not_squared_displacement", S_DD, inp, expected=np.sum((g + d0) ** 2, axis=1).tolist(), got=np.asarray(r2).tolist())
